@@ -38,6 +38,15 @@ CONFIGS = {
     "one_app_one_of_two_peers": dict(
         peers=[{"name": "peer1.verif.example"}, {"name": "peer2.verif.example"}],
         apps=[{"tag": "A", "id": 4, "peers": ["peer1.verif.example"]}]),
+    # additional realms that are routed already when the application is registered: shared by two applications,
+    # equal to another peer's realm, equal to the node's own realm while the peer sits elsewhere
+    "overlapping_additional_realms": dict(
+        peers=[{"name": "peer1.verif.example"}, {"name": "peer2.verif.example"},
+               {"name": "peer3.other.example", "realm": R2}],
+        apps=[{"tag": "A", "id": 4, "peers": ["peer1.verif.example"], "realms": [RX]},
+              {"tag": "B", "id": 4, "peers": ["peer2.verif.example"], "realms": [RX, R2]},
+              {"tag": "C", "id": 16777251, "peers": ["peer3.other.example"], "realms": [R1, RX]},
+              {"tag": "D", "id": 16777251, "peers": ["peer1.verif.example"], "realms": [RX, RX]}]),
     "raising_and_threading_apps": dict(
         peers=[{"name": "peer1.verif.example"}, {"name": "peer2.verif.example"}],
         apps=[{"tag": "A", "id": 4, "peers": ["peer1.verif.example"], "behaviour": "raise"},
